@@ -467,6 +467,13 @@ func runParent(p *Prop, tier string, seed int64, nworkers int, budget time.Durat
 			return 2
 		}
 	}
+	if len(agg.Samples) == 0 && nNew == 0 {
+		fmt.Fprintf(os.Stderr, "ENGINE-ERROR property=%s: the check recorded no sample case\n", p.ID)
+		return 2
+	}
+	if agg.Samples == nil {
+		agg.Samples = []any{}
+	}
 	if agg.Nontrivial < 2 && nNew == 0 {
 		fmt.Fprintf(os.Stderr, "ENGINE-ERROR property=%s: vacuous run (distinct non-trivial cases = %d)\n", p.ID, agg.Nontrivial)
 		return 2
